@@ -179,6 +179,9 @@ func TestDrv_C17(t *testing.T) {
 	for p := 0; p < plots; p++ {
 		na := 1 + r.Intn(3)
 		names := []string{"", "a", "50qps", "attack: B"}
+		if p%3 == 1 { // names of which one is the beginning of another
+			names = []string{"load", "loadBalanced", "GET", "GETALL", "", "Canary", "load;x", "load@2"}
+		}
 		if p%8 == 5 { // many attacks in one plot
 			na = 10 + r.Intn(10)
 			for i := 0; i < 20; i++ {
